@@ -60,7 +60,7 @@ func TestVerif_C16_Target(t *testing.T) {
 				}
 			}
 		}
-		for _, sel := range []string{"labels", "annotations", "expr", "fail-label", "fail-annotation", "fail-label-finalizer", "fail-label-leftover"} {
+		for _, sel := range []string{"labels", "annotations", "expr", "fail-label", "fail-annotation", "fail-label-finalizer", "fail-label-leftover", "fail-annotation-expr", "fail-label-expr"} {
 			cases = append(cases, c16Case{kind, "add", "add", "different", sel == "fail-label-finalizer", sel})
 		}
 	}
@@ -103,7 +103,7 @@ func runC16(t *testing.T, c c16Case) {
 		cfg.LabelSel = lsel
 	case "annotations":
 		cfg.AnnotationSel = asel
-	case "expr":
+	case "expr", "fail-annotation-expr", "fail-label-expr":
 		cfg.LabelSel = &metav1.LabelSelector{MatchExpressions: []metav1.LabelSelectorRequirement{{Key: "decorate", Operator: metav1.LabelSelectorOpIn, Values: []string{uid, "zz"}}}}
 		cfg.AnnotationSel = &v1alpha1.AnnotationSelector{MatchExpressions: []metav1.LabelSelectorRequirement{{Key: "decor", Operator: metav1.LabelSelectorOpExists}}}
 	}
@@ -128,6 +128,12 @@ func runC16(t *testing.T, c c16Case) {
 	}
 	if c.Selector == "fail-annotation" {
 		anns["decor"] = "off"
+	}
+	if c.Selector == "fail-annotation-expr" {
+		delete(anns, "decor") // the annotation selector consists of one expression: decor Exists
+	}
+	if c.Selector == "fail-label-expr" {
+		labels["decorate"] = "someone-else" // the label selector consists of one expression: decorate In (uid, zz)
 	}
 	sim.SetLabels(target, labels)
 	sim.SetAnnotations(target, anns)
